@@ -44,6 +44,12 @@ mod proofs {
             static mut FILE: [u8; 72];
             #[link_name = "VERIF_FLEN"]
             static mut FLEN: usize;
+            #[link_name = "VERIF_READ_FAILS"]
+            static mut READ_FAILS: i32;
+            #[link_name = "VERIF_FD_OPEN"]
+            static mut FD_OPEN: i32;
+            #[link_name = "VERIF_CLOSES"]
+            static mut CLOSES: i32;
         }
 
         #[kani::proof]
@@ -53,6 +59,9 @@ mod proofs {
                 FILE = kani::any();
                 FLEN = kani::any();
                 kani::assume(FLEN <= 72);
+                READ_FAILS = if kani::any::<bool>() { 1 } else { 0 };
+                FD_OPEN = 0;
+                CLOSES = 0;
             }
             let path = CStr::from_bytes_with_nul(b"/x\0").unwrap();
             let r = ShmReader::new(path);
@@ -62,13 +71,20 @@ mod proofs {
             let ver = u16::from_ne_bytes([f[12], f[13]]);
             let gen = u16::from_ne_bytes([f[14], f[15]]);
             let flen = unsafe { FLEN };
-            let should_open = flen >= 16 && magic_ok && ver != 0 && gen != 0 && segsize >= 72;
+            let read_fails = unsafe { READ_FAILS } != 0;
+            let should_open = !read_fails && flen >= 16 && magic_ok && ver != 0 && gen != 0 && segsize >= 72;
             match &r {
                 Ok(_) => assert!(should_open),
-                Err(ShmError::SegmentNotInitialized) => assert!(flen < 16 || !magic_ok || ver == 0 || gen == 0),
-                Err(ShmError::SegmentMalformed) => assert!(flen >= 16 && magic_ok && ver != 0 && gen != 0 && segsize < 72),
+                Err(ShmError::SegmentNotInitialized) => assert!(!read_fails && (flen < 16 || !magic_ok || ver == 0 || gen == 0)),
+                Err(ShmError::SegmentMalformed) => assert!(!read_fails && flen >= 16 && magic_ok && ver != 0 && gen != 0 && segsize < 72),
+                // a failing read(2) (the path is a directory) is reported as the failing system call, never a panic
+                Err(ShmError::SyscallError(_, _)) => assert!(read_fails),
+                #[allow(unreachable_patterns)]
                 Err(_) => assert!(false),
             }
+            // the descriptor is closed exactly once on every path (a second close would hit someone else's descriptor)
+            assert!(unsafe { FD_OPEN } == 0 && unsafe { CLOSES } == 1);
+            kani::cover!(matches!(r, Err(ShmError::SyscallError(_, _))), "a failing read is reachable");
             kani::cover!(r.is_ok(), "a file that opens is reachable");
             kani::cover!(matches!(r, Err(ShmError::SegmentMalformed)), "a malformed file is reachable");
             std::mem::forget(r);
